@@ -312,7 +312,11 @@ func runC14(w *World, r *Report) {
 		} else if name != "common.messageXid" {
 			r.OK("globals", name, "", w.Pos(g.Pos()), "no store into it, into memory it holds, or through a pointer loaded from it, outside package initialisation", true)
 		}
-		if pointerBearing(g.Type()) {
+		if w.sentinelError(g) {
+			// `var errShort = errors.New("…")`: an immutable value that is meant to be handed out; the globals rule
+			// above already says that nothing assigns to the variable
+			r.OK("registry-ro", name, "", w.Pos(g.Pos()), "a sentinel error (errors.New / fmt.Errorf, never reassigned): handing it out shares nothing that can change", false)
+		} else if pointerBearing(g.Type()) {
 			if vs := tableViol[name]; len(vs) > 0 {
 				seen := map[string]bool{}
 				for _, v := range vs {
@@ -620,4 +624,24 @@ func closureStateRule(w *World, r *Report) {
 		}
 	}
 	r.OK("closure-state", "inventory", "", "-", fmt.Sprintf("%d function values that outlive their maker examined", nClos), true)
+}
+
+// sentinelError: a package-level variable of type error whose initialiser is errors.New(…) or fmt.Errorf(…).
+func (w *World) sentinelError(g *types.Var) bool {
+	if !isErrorType(g.Type()) {
+		return false
+	}
+	init, pkg := w.globalInit(g)
+	if init == nil || pkg == nil {
+		return false
+	}
+	c, ok := unparen(init).(*ast.CallExpr)
+	if !ok {
+		return false
+	}
+	fn := w.calleeOf(pkg.TypesInfo, c)
+	if fn == nil || fn.Pkg() == nil {
+		return false
+	}
+	return (fn.Pkg().Path() == "errors" && fn.Name() == "New") || (fn.Pkg().Path() == "fmt" && fn.Name() == "Errorf")
 }
